@@ -84,11 +84,21 @@ def random_scenario(rng):
             spare += 1                       # a follow-up task only ever scheduled from inside task t
             lines.append("TASKFN %d %s" % (t, rng.choice(["N%d" % spare, "F%d:%d" % (spare, rng.choice([0, 2, 40000])), "X%d" % rng.randint(1, ntasks)])))
     lines[0] = "NT %d" % spare
+    # references taken while the scheduler is in use: a client acquires one more (and releases it again at the end); in some
+    # scenarios every client does so at once, first thing
+    together = nclients > 1 and rng.random() < 0.25
     for k in range(nclients):
         o = ops[k]
         if rng.random() < 0.3:
             o.insert(rng.randrange(len(o) + 1), "P")
-        lines.append("CLIENT %d %s R" % (k, " ".join(o)))
+        extra = 0
+        if together:
+            o.insert(0, "G")
+            extra += 1
+        for _ in range(rng.choice([0, 0, 0, 1, 2])):
+            o.insert(rng.randrange(len(o) + 1), "G")
+            extra += 1
+        lines.append("CLIENT %d %s R%s" % (k, " ".join(o), " R" * extra))
     return lines
 
 
